@@ -138,14 +138,28 @@ def run(rep, facts, tier):
                 ok = True
                 why = 'receiver is a function-local owned handle'
             rep.add('C12.R2', 'C12.R2:%s:%s' % (fn, name), ok, why, fn, t.get('at'))
-    rep.floor('C12.R2 rpds mutation sites', n_mut, 8)
+    rep.floor('C12.R2 rpds mutation sites', n_mut, 4)
 
     # ---------- R3
+    COLLECTORS = ('core::iter::traits::iterator::Iterator::collect', 'core::iter::traits::collect::FromIterator::from_iter',
+                  'core::iter::traits::collect::Extend::extend')
     for fn, kind in (('state::vec_collect_till_ptr', 'push_back_mut'), ('state::map_collect_till_ptr', 'insert_mut')):
         f = fx.need(fn)
         sites = [(bb, t) for bb, t in f.calls() if (callee_of(t) or '').endswith('::' + kind)]
-        ok = bool(sites)
-        why = 'no %s in %s' % (kind, short(fn))
+        # the other spelling of the same thing: slice.iter()...collect() / from_iter / extend
+        coll = [(bb, t) for bb, t in f.calls() if (callee_of(t) or '') in COLLECTORS or
+                (callee_of(t) or '').endswith('FromIterator<T>>::from_iter') or (callee_of(t) or '').endswith('Extend<T>>::extend')]
+        ok = bool(sites) or bool(coll)
+        why = 'no %s / collect in %s' % (kind, short(fn))
+        for bb, t in coll:
+            e = f.expr_of_operand(t['args'][-1])
+            txt = expr_str(e, -30)
+            fwd = 'data_stack' in txt and 'iter' in txt and '::rev' not in txt and 'pop_data' not in txt
+            if not fwd:
+                ok = False
+                why = '%s collects from %s: not a forward walk over the stack slice' % (short(fn), txt[:70])
+            elif ok:
+                why = 'elements are collected from a forward iteration over data_stack[ptr..]; pops happen afterwards'
         for bb, t in sites:
             for a in t['args'][1:]:
                 e = f.expr_of_operand(a)
@@ -183,6 +197,12 @@ def run(rep, facts, tier):
                     return None
                 conds.append((c[0], expr_str(unwrap_value(c[1]), -10), expr_str(unwrap_value(c[2]), -10), ret_of(tbb), ret_of(fbb)))
     neg_ok = any(op == 'Gt' and 'abs' in a and b == 'arg1' and t == 'err' and f_ == 'ok' for op, a, b, t, f_ in conds)
+    # the same boundary spelled `len.checked_sub(|i|)`: None exactly when |i| > len
+    for x in expr_walk(rf.expr_of_local(0)):
+        if isinstance(x, tuple) and x[0] == 'call' and x[1].endswith('<impl usize>::checked_sub') and len(x[2]) == 2:
+            a0, a1 = expr_str(unwrap_value(x[2][0]), -10), expr_str(x[2][1], -10)
+            if a0 == 'arg1' and 'abs' in a1 and 'arg2' in a1:
+                neg_ok = True
     pos_ok = any(op == 'Lt' and 'arg2' in a and b == 'arg1' and t == 'ok' and f_ == 'err' for op, a, b, t, f_ in conds)
     sign = any(op == 'Lt' and a == 'arg2' and b == '0' for op, a, b, t, f_ in conds)
     rep.add('C12.R4', 'C12.R4:relative_index:negative-boundary', neg_ok and sign,
